@@ -250,262 +250,7 @@ func runC13(cx *Ctx, r *Report) {
 		return walks[k]
 	}
 	// ------------------------------------------------------------ Q1 dequeue per entry
-	for _, q := range c13Queues {
-		var cw *c13Walk
-		for _, e := range cx.entriesOfModule(q.mod, "abci") {
-			if e.Name == q.entry {
-				cw = get(e)
-			}
-		}
-		key := q.mod + "." + q.entry + "|" + q.q
-		if cw == nil {
-			r.toolErr("no abci entry %s.%s", q.mod, q.entry)
-			continue
-		}
-		var iters, dels, mdels []hev
-		for _, x := range cw.evs {
-			switch {
-			case (x.ev.Kind == "store.iter" || x.ev.Kind == "store.riter") && hasPrefix(x.ev, q.q):
-				iters = append(iters, x)
-			case x.ev.Kind == "store.delete" && hasPrefix(x.ev, q.q):
-				dels = append(dels, x)
-			case x.ev.Kind == "store.delete" && q.marker != "" && hasPrefix(x.ev, q.marker):
-				mdels = append(mdels, x)
-			}
-		}
-		if len(iters) == 0 {
-			r.violate("dequeue", key, "", "the "+q.what+" is no longer iterated by "+q.mod+"."+q.entry+": due entries are never processed")
-			continue
-		}
-		// a read-only scan of the queue (a counter, a getter: a function that reaches no
-		// mutation and takes no callback) processes nothing; the processing iteration is
-		// the one the rule is about, and there must be one
-		var proc []hev
-		for _, it := range iters {
-			// the consumer of the iterator: a helper that hands the iterator out is
-			// looked through, its caller does the processing
-			cfr := it.ev.Fr
-			handsOut := func(f *ssa.Function) bool {
-				for i := 0; i < f.Signature.Results().Len(); i++ {
-					if strings.Contains(f.Signature.Results().At(i).Type().String(), "Iterator") {
-						return true
-					}
-				}
-				return cx.snapshotCollector(f)
-			}
-			for cfr.Parent != nil && handsOut(cfr.Fn) {
-				cfr = cfr.Parent
-			}
-			f := cfr.Fn
-			pure := !handsOut(f)
-			for k := range cx.transPrimKinds(f) {
-				if isMutatingKind(k) {
-					pure = false
-				}
-			}
-			for i := 0; i < f.Signature.Params().Len(); i++ {
-				if _, isFn := f.Signature.Params().At(i).Type().Underlying().(*types.Signature); isFn {
-					pure = false
-				}
-			}
-			if !pure || f.Parent() != nil || cfr.Parent == nil {
-				proc = append(proc, it)
-			}
-		}
-		if len(proc) == 0 {
-			r.violate("dequeue", key, "", "the "+q.what+" is only scanned by read-only helpers in "+q.mod+"."+q.entry+": due entries are never processed")
-			continue
-		}
-		iters = proc
-		for _, it := range iters {
-			pos := it.ev.Pos(cx)
-			var pArgs []string
-			if len(it.ev.Args) > 1 {
-				_, pArgs = callArgsOf(it.ev.Args[1])
-			}
-			// closure form: the iterating call receives the per-entry body
-			var body *Frame
-			var bodies []*Frame
-			for _, cf := range cw.frames {
-				if cf.MC == nil || cf.ViaSite == nil {
-					continue
-				}
-				for f := it.ev.Fr; f != nil; f = f.Parent {
-					if f.Call != nil && ssa.Instruction(f.Call) == cf.ViaSite && f.Parent == cf.Via {
-						bodies = append(bodies, cf)
-					}
-				}
-			}
-			// several closures on the iterating chain: an iterator wrapper hands an adapter
-			// closure (`func(id, c) { op(id, &c) }`) to a shared helper. The body is the
-			// closure that deletes; every other one must forward to its captured callback
-			// on all paths.
-			adaptersOK := true
-			for _, cf := range bodies {
-				has := false
-				for _, d := range dels {
-					if a, _ := closureAncestor(d.ev); a == cf {
-						has = true
-					}
-				}
-				if has || len(bodies) == 1 {
-					body = cf
-				}
-			}
-			if body == nil && len(bodies) > 0 {
-				body = bodies[len(bodies)-1]
-			}
-			for _, cf := range bodies {
-				if cf != body && !mustPass(cf.Fn, forwardsToCallback) {
-					adaptersOK = false
-				}
-			}
-			var mine []hev
-			okMust := false
-			form := ""
-			loopFr, lh, consumer, ch, shapeOK := cx.iterationConsumer(it.ev.Fr)
-			snapName, wrongLoop := "", false
-			if body != nil {
-				form = "closure " + shortFn(body.Fn)
-				sites := map[ssa.Instruction]bool{}
-				for _, d := range dels {
-					cf, s := closureAncestor(d.ev)
-					if cf == body {
-						mine = append(mine, d)
-						if mustBelowSite(d.ev, cf) {
-							sites[s] = true
-						}
-					}
-				}
-				// every path through the body passes one of the deleting sites
-				okMust = adaptersOK && len(sites) > 0 && mustPass(body.Fn, func(x ssa.Instruction) bool { return sites[x] })
-			} else {
-				// loop form: the handler consumes the iterator itself, or ranges over a
-				// snapshot of the bucket taken by a read-only collector
-				for L := it.ev.Fr; L != nil && !okMust; L = L.Parent {
-					var sites []ssa.Instruction
-					var cand []hev
-					for _, d := range dels {
-						if s := liftTo(d.ev, L); s != nil && inLoop(s.Block()) {
-							sites = append(sites, s)
-							cand = append(cand, d)
-						}
-					}
-					if len(sites) > 0 {
-						form = "loop in " + shortFn(L.Fn)
-						mine = cand
-						okMust = perIterationMust(sites)
-						if shapeOK && consumer != loopFr {
-							form = "loop in " + shortFn(L.Fn) + " over the snapshot taken by " + shortFn(loopFr.Fn)
-							snapName = callName(loopFr.Call)
-						}
-						if !shapeOK || L != consumer || loopHeaderOf(sites[0].Block()) != ch {
-							okMust = false
-							wrongLoop = true
-						}
-						break
-					}
-				}
-			}
-			if len(mine) == 0 {
-				r.violate("dequeue", key, pos, "the per-entry body of the "+q.what+" ("+form+") never deletes the entry it processes: the entry stays queued")
-				continue
-			}
-			if wrongLoop {
-				r.violate("dequeue", key, mine[0].ev.Pos(cx), "the deletes of the "+q.what+" ("+form+") are not in the loop that walks the queue (or its snapshot): entries are not deleted one per processed entry")
-				continue
-			}
-			if !okMust {
-				r.violate("dequeue", key, mine[0].ev.Pos(cx), "the per-entry body of the "+q.what+" ("+form+") has a path that returns without deleting the entry it processes (stale queue entry)")
-				continue
-			}
-			// key agreement
-			okKey := true
-			why := ""
-			for _, d := range mine {
-				_, kArgs := callArgsOf(d.ev.Args[0])
-				if kArgs == nil {
-					okKey, why = false, "key "+d.ev.Args[0].LooseString()+" is not built by a key function"
-					continue
-				}
-				for _, pa := range pArgs {
-					if q.idOnly {
-						break
-					}
-					found := false
-					for _, ka := range kArgs {
-						if ka == pa || strings.HasSuffix(ka, ".EndHeight") || strings.HasSuffix(ka, ".ExpirationHeight") {
-							found = true
-						}
-					}
-					if !found {
-						okKey, why = false, "the iterator's bound "+pa+" is not part of the deleted key "+d.ev.Args[0].LooseString()
-					}
-				}
-				elem := false
-				for i, a := range d.ev.Args[0].Args {
-					if contains(pArgs, kArgs[i]) {
-						continue
-					}
-					if body != nil && mentionsParamOf(a, body.Fn) {
-						elem = true
-					}
-					if body == nil && (strings.Contains(kArgs[i], "new:") || strings.Contains(kArgs[i], "Iterator.")) {
-						elem = true
-					}
-					if body == nil && snapName != "" && strings.Contains(kArgs[i], snapName+"(") && strings.Contains(kArgs[i], ")[") {
-						elem = true // an element of the snapshot
-					}
-				}
-				if !elem {
-					okKey, why = false, "no component of the deleted key "+d.ev.Args[0].LooseString()+" comes from the iterated element"
-				}
-			}
-			if !okKey {
-				r.violate("dequeue", key, mine[0].ev.Pos(cx), "the per-entry body of the "+q.what+" deletes under a different key than the entry it processes: "+why)
-				continue
-			}
-			// marker
-			if q.marker != "" {
-				okM := false
-				for _, d := range mine {
-					for _, m := range mdels {
-						if coExecuted(d.ev, m.ev) {
-							okM = true
-						}
-					}
-				}
-				if !okM {
-					r.violate("dequeue", key, mine[0].ev.Pos(cx), "the entry of the "+q.what+" is deleted without its companion record under "+q.marker)
-					continue
-				}
-			}
-			r.ok("dequeue", key, mine[0].ev.Pos(cx), fmt.Sprintf("%s iterated at %s; per-entry body (%s) deletes the processed entry on every path, key height = iterator bound, id from the element%s", q.what, pos, form, map[bool]string{true: "; companion " + q.marker + " deleted with it", false: ""}[q.marker != ""]))
-			// the whole bucket is drained: the loop that walks the iterator ends only when the
-			// iterator is exhausted. A bucket is looked at in the one block of its height, so
-			// entries left behind by a break, an early return or a callback that asks to stop
-			// are never processed.
-			{
-				early, stopProto := "", false
-				found := shapeOK
-				if shapeOK {
-					early, stopProto = cx.loopEarlyExit(loopFr.Fn, lh)
-					if consumer != loopFr && early == "" {
-						e2, sp2 := cx.loopEarlyExit(consumer.Fn, ch)
-						early, stopProto = e2, stopProto || sp2
-					}
-				}
-				if stopProto {
-					for _, cf := range bodies {
-						if at := mayReturnNonFalse(cf.Fn, 0); at != nil {
-							early = cx.P.Pos(at.Pos()) + " (the per-entry callback can ask the iteration to stop)"
-						}
-					}
-				}
-				r.check(found && early == "", "drain-complete", key, pos, "the iteration over the "+q.what+" ends only when the iterator is exhausted", "the iteration over the "+q.what+" can end early ("+early+"): the remaining due entries are never looked at again and stay queued")
-			}
-		}
-	}
+	cx.c13DequeueRule(r, get, nil)
 	// other iterations inside block handlers (informational)
 	for _, e := range cx.EntriesOf("abci") {
 		cw := get(e)
@@ -1375,6 +1120,147 @@ func (cx *Ctx) freshThroughWriter(R, Sp, S *Event) bool {
 	return !dep && !sl.unknown
 }
 
+// discardedBranch: the event runs on a branched context (ctx.CacheContext()) whose write
+// function is not called on every path that leaves the branching function: on the other
+// paths everything the event did is thrown away. Block handlers are not wrapped in a
+// transaction, so a "rolled back" dequeue or payment simply did not happen while the
+// handler carries on. Returns the position of the CacheContext call.
+func (cx *Ctx) discardedBranch(w *Walker, ev *Event) (string, bool) {
+	// trace the context the event's function received back along the call chain
+	var trace func(v ssa.Value, f *Frame, depth int) (*ssa.Call, *Frame)
+	trace = func(v ssa.Value, f *Frame, depth int) (*ssa.Call, *Frame) {
+		if depth > 40 || f == nil {
+			return nil, nil
+		}
+		switch x := v.(type) {
+		case *ssa.Parameter:
+			if f.Call != nil && f.Parent != nil {
+				idx := -1
+				for i, p := range f.Fn.Params {
+					if p == x {
+						idx = i
+					}
+				}
+				args := f.Call.Common().Args
+				if f.Call.Common().IsInvoke() {
+					idx-- // the receiver is not among the arguments of an interface call
+				}
+				if idx >= 0 && idx < len(args) {
+					return trace(args[idx], f.Parent, depth+1)
+				}
+			}
+			if f.Via != nil && f.ViaSite != nil {
+				// a closure entered where it is passed: its context parameter is supplied by
+				// the iterating helper, which received it from the frame that passed the closure
+				if vc, ok := f.ViaSite.(ssa.CallInstruction); ok {
+					for _, a := range vc.Common().Args {
+						if isCtxType(a.Type()) {
+							return trace(a, f.Via, depth+1)
+						}
+					}
+				}
+			}
+		case *ssa.FreeVar:
+			if f.MC != nil && f.Parent != nil {
+				for i, fv := range f.Fn.FreeVars {
+					if fv == x && i < len(f.MC.Bindings) {
+						return trace(f.MC.Bindings[i], f.Parent, depth+1)
+					}
+				}
+			}
+		case *ssa.Extract:
+			if call, ok := x.Tuple.(*ssa.Call); ok {
+				if _, name := calleeName(call.Common()); name == "Context.CacheContext" && x.Index == 0 {
+					return call, f
+				}
+			}
+		case *ssa.Call:
+			cc := x.Common()
+			for _, a := range cc.Args {
+				if isCtxType(a.Type()) {
+					return trace(a, f, depth+1)
+				}
+			}
+		case *ssa.UnOp:
+			if a, ok := x.X.(*ssa.Alloc); ok && a.Referrers() != nil {
+				for _, r := range *a.Referrers() {
+					if st, ok := r.(*ssa.Store); ok && st.Addr == a {
+						if c, cf := trace(st.Val, f, depth+1); c != nil {
+							return c, cf
+						}
+					}
+				}
+				return nil, nil
+			}
+			return trace(x.X, f, depth+1)
+		case *ssa.Phi:
+			for _, e := range x.Edges {
+				if c, cf := trace(e, f, depth+1); c != nil {
+					return c, cf
+				}
+			}
+		case *ssa.MakeInterface:
+			return trace(x.X, f, depth+1)
+		case *ssa.ChangeType:
+			return trace(x.X, f, depth+1)
+		case *ssa.TypeAssert:
+			return trace(x.X, f, depth+1)
+		}
+		return nil, nil
+	}
+	var start ssa.Value
+	for _, p := range ev.Fr.Fn.Params {
+		if isCtxType(p.Type()) {
+			start = p
+			break
+		}
+	}
+	if start == nil {
+		for _, fv := range ev.Fr.Fn.FreeVars {
+			if isCtxType(fv.Type()) || (func() bool {
+				pt, ok := fv.Type().(*types.Pointer)
+				return ok && isCtxType(pt.Elem())
+			})() {
+				start = fv
+				break
+			}
+		}
+	}
+	if start == nil {
+		return "", false
+	}
+	call, cf := trace(start, ev.Fr, 0)
+	if call == nil {
+		return "", false
+	}
+	var wfn ssa.Value
+	if call.Referrers() != nil {
+		for _, ref := range *call.Referrers() {
+			if ex, ok := ref.(*ssa.Extract); ok && ex.Index == 1 {
+				wfn = ex
+			}
+		}
+	}
+	committed := false
+	if wfn != nil {
+		isWrite := func(x ssa.Instruction) bool {
+			ci, ok := x.(ssa.CallInstruction)
+			return ok && ci.Common().Value == wfn && !ci.Common().IsInvoke()
+		}
+		committed = mustPassFrom(cf.Fn, call.Block(), isWrite, func(b *ssa.BasicBlock) bool {
+			if len(b.Instrs) == 0 {
+				return false
+			}
+			_, isRet := b.Instrs[len(b.Instrs)-1].(*ssa.Return)
+			return isRet
+		})
+	}
+	if committed {
+		return "", false
+	}
+	return cx.P.Pos(call.Pos()), true
+}
+
 func init() {
 	dumps["lostupdate"] = func(cx *Ctx) {
 		for _, e := range cx.EntriesOf("msg", "abci", "callback") {
@@ -2068,4 +1954,282 @@ func mayReturnNonFalse(fn *ssa.Function, depth int) ssa.Instruction {
 		}
 	}
 	return bad
+}
+
+
+// c13DequeueRule: the per-entry dequeue obligations (Q1) for the block-handler work lists
+// selected by only (nil: all of them). Shared with C08 (service lists) and C18 (random).
+func (cx *Ctx) c13DequeueRule(r *Report, get func(Entry) *c13Walk, only func(q c13Queue) bool) {
+	for _, q := range c13Queues {
+		if only != nil && !only(q) {
+			continue
+		}
+		var cw *c13Walk
+		for _, e := range cx.entriesOfModule(q.mod, "abci") {
+			if e.Name == q.entry {
+				cw = get(e)
+			}
+		}
+		key := q.mod + "." + q.entry + "|" + q.q
+		if cw == nil {
+			r.toolErr("no abci entry %s.%s", q.mod, q.entry)
+			continue
+		}
+		var iters, dels, mdels []hev
+		for _, x := range cw.evs {
+			switch {
+			case (x.ev.Kind == "store.iter" || x.ev.Kind == "store.riter") && hasPrefix(x.ev, q.q):
+				iters = append(iters, x)
+			case x.ev.Kind == "store.delete" && hasPrefix(x.ev, q.q):
+				dels = append(dels, x)
+			case x.ev.Kind == "store.delete" && q.marker != "" && hasPrefix(x.ev, q.marker):
+				mdels = append(mdels, x)
+			}
+		}
+		if len(iters) == 0 {
+			r.violate("dequeue", key, "", "the "+q.what+" is no longer iterated by "+q.mod+"."+q.entry+": due entries are never processed")
+			continue
+		}
+		// a delete performed on a branched context that is not committed on every path is
+		// not a delete on the paths that drop the branch
+		{
+			var kept []hev
+			for _, d := range dels {
+				if at, disc := cx.discardedBranch(d.w, d.ev); disc {
+					r.violate("dequeue", key+"|discarded-branch", d.ev.Pos(cx), "the entry of the "+q.what+" is deleted on a branched context (CacheContext at "+at+") whose write function is not called on every path: where the branch is dropped the entry stays queued at a past height (and everything else done on the branch is lost) while the block handler carries on")
+					continue
+				}
+				kept = append(kept, d)
+			}
+			dels = kept
+		}
+		// a read-only scan of the queue (a counter, a getter: a function that reaches no
+		// mutation and takes no callback) processes nothing; the processing iteration is
+		// the one the rule is about, and there must be one
+		var proc []hev
+		for _, it := range iters {
+			// the consumer of the iterator: a helper that hands the iterator out is
+			// looked through, its caller does the processing
+			cfr := it.ev.Fr
+			handsOut := func(f *ssa.Function) bool {
+				for i := 0; i < f.Signature.Results().Len(); i++ {
+					if strings.Contains(f.Signature.Results().At(i).Type().String(), "Iterator") {
+						return true
+					}
+				}
+				return cx.snapshotCollector(f)
+			}
+			for cfr.Parent != nil && handsOut(cfr.Fn) {
+				cfr = cfr.Parent
+			}
+			f := cfr.Fn
+			pure := !handsOut(f)
+			for k := range cx.transPrimKinds(f) {
+				if isMutatingKind(k) {
+					pure = false
+				}
+			}
+			for i := 0; i < f.Signature.Params().Len(); i++ {
+				if _, isFn := f.Signature.Params().At(i).Type().Underlying().(*types.Signature); isFn {
+					pure = false
+				}
+			}
+			if !pure || f.Parent() != nil || cfr.Parent == nil {
+				proc = append(proc, it)
+			}
+		}
+		if len(proc) == 0 {
+			r.violate("dequeue", key, "", "the "+q.what+" is only scanned by read-only helpers in "+q.mod+"."+q.entry+": due entries are never processed")
+			continue
+		}
+		iters = proc
+		for _, it := range iters {
+			pos := it.ev.Pos(cx)
+			var pArgs []string
+			if len(it.ev.Args) > 1 {
+				_, pArgs = callArgsOf(it.ev.Args[1])
+			}
+			// closure form: the iterating call receives the per-entry body
+			var body *Frame
+			var bodies []*Frame
+			for _, cf := range cw.frames {
+				if cf.MC == nil || cf.ViaSite == nil {
+					continue
+				}
+				for f := it.ev.Fr; f != nil; f = f.Parent {
+					if f.Call != nil && ssa.Instruction(f.Call) == cf.ViaSite && f.Parent == cf.Via {
+						bodies = append(bodies, cf)
+					}
+				}
+			}
+			// several closures on the iterating chain: an iterator wrapper hands an adapter
+			// closure (`func(id, c) { op(id, &c) }`) to a shared helper. The body is the
+			// closure that deletes; every other one must forward to its captured callback
+			// on all paths.
+			adaptersOK := true
+			for _, cf := range bodies {
+				has := false
+				for _, d := range dels {
+					if a, _ := closureAncestor(d.ev); a == cf {
+						has = true
+					}
+				}
+				if has || len(bodies) == 1 {
+					body = cf
+				}
+			}
+			if body == nil && len(bodies) > 0 {
+				body = bodies[len(bodies)-1]
+			}
+			for _, cf := range bodies {
+				if cf != body && !mustPass(cf.Fn, forwardsToCallback) {
+					adaptersOK = false
+				}
+			}
+			var mine []hev
+			okMust := false
+			form := ""
+			loopFr, lh, consumer, ch, shapeOK := cx.iterationConsumer(it.ev.Fr)
+			snapName, wrongLoop := "", false
+			if body != nil {
+				form = "closure " + shortFn(body.Fn)
+				sites := map[ssa.Instruction]bool{}
+				for _, d := range dels {
+					cf, s := closureAncestor(d.ev)
+					if cf == body {
+						mine = append(mine, d)
+						if mustBelowSite(d.ev, cf) {
+							sites[s] = true
+						}
+					}
+				}
+				// every path through the body passes one of the deleting sites
+				okMust = adaptersOK && len(sites) > 0 && mustPass(body.Fn, func(x ssa.Instruction) bool { return sites[x] })
+			} else {
+				// loop form: the handler consumes the iterator itself, or ranges over a
+				// snapshot of the bucket taken by a read-only collector
+				for L := it.ev.Fr; L != nil && !okMust; L = L.Parent {
+					var sites []ssa.Instruction
+					var cand []hev
+					for _, d := range dels {
+						if s := liftTo(d.ev, L); s != nil && inLoop(s.Block()) {
+							sites = append(sites, s)
+							cand = append(cand, d)
+						}
+					}
+					if len(sites) > 0 {
+						form = "loop in " + shortFn(L.Fn)
+						mine = cand
+						okMust = perIterationMust(sites)
+						if shapeOK && consumer != loopFr {
+							form = "loop in " + shortFn(L.Fn) + " over the snapshot taken by " + shortFn(loopFr.Fn)
+							snapName = callName(loopFr.Call)
+						}
+						if !shapeOK || L != consumer || loopHeaderOf(sites[0].Block()) != ch {
+							okMust = false
+							wrongLoop = true
+						}
+						break
+					}
+				}
+			}
+			if len(mine) == 0 {
+				r.violate("dequeue", key, pos, "the per-entry body of the "+q.what+" ("+form+") never deletes the entry it processes: the entry stays queued")
+				continue
+			}
+			if wrongLoop {
+				r.violate("dequeue", key, mine[0].ev.Pos(cx), "the deletes of the "+q.what+" ("+form+") are not in the loop that walks the queue (or its snapshot): entries are not deleted one per processed entry")
+				continue
+			}
+			if !okMust {
+				r.violate("dequeue", key, mine[0].ev.Pos(cx), "the per-entry body of the "+q.what+" ("+form+") has a path that returns without deleting the entry it processes (stale queue entry)")
+				continue
+			}
+			// key agreement
+			okKey := true
+			why := ""
+			for _, d := range mine {
+				_, kArgs := callArgsOf(d.ev.Args[0])
+				if kArgs == nil {
+					okKey, why = false, "key "+d.ev.Args[0].LooseString()+" is not built by a key function"
+					continue
+				}
+				for _, pa := range pArgs {
+					if q.idOnly {
+						break
+					}
+					found := false
+					for _, ka := range kArgs {
+						if ka == pa || strings.HasSuffix(ka, ".EndHeight") || strings.HasSuffix(ka, ".ExpirationHeight") {
+							found = true
+						}
+					}
+					if !found {
+						okKey, why = false, "the iterator's bound "+pa+" is not part of the deleted key "+d.ev.Args[0].LooseString()
+					}
+				}
+				elem := false
+				for i, a := range d.ev.Args[0].Args {
+					if contains(pArgs, kArgs[i]) {
+						continue
+					}
+					if body != nil && mentionsParamOf(a, body.Fn) {
+						elem = true
+					}
+					if body == nil && (strings.Contains(kArgs[i], "new:") || strings.Contains(kArgs[i], "Iterator.")) {
+						elem = true
+					}
+					if body == nil && snapName != "" && strings.Contains(kArgs[i], snapName+"(") && strings.Contains(kArgs[i], ")[") {
+						elem = true // an element of the snapshot
+					}
+				}
+				if !elem {
+					okKey, why = false, "no component of the deleted key "+d.ev.Args[0].LooseString()+" comes from the iterated element"
+				}
+			}
+			if !okKey {
+				r.violate("dequeue", key, mine[0].ev.Pos(cx), "the per-entry body of the "+q.what+" deletes under a different key than the entry it processes: "+why)
+				continue
+			}
+			// marker
+			if q.marker != "" {
+				okM := false
+				for _, d := range mine {
+					for _, m := range mdels {
+						if coExecuted(d.ev, m.ev) {
+							okM = true
+						}
+					}
+				}
+				if !okM {
+					r.violate("dequeue", key, mine[0].ev.Pos(cx), "the entry of the "+q.what+" is deleted without its companion record under "+q.marker)
+					continue
+				}
+			}
+			r.ok("dequeue", key, mine[0].ev.Pos(cx), fmt.Sprintf("%s iterated at %s; per-entry body (%s) deletes the processed entry on every path, key height = iterator bound, id from the element%s", q.what, pos, form, map[bool]string{true: "; companion " + q.marker + " deleted with it", false: ""}[q.marker != ""]))
+			// the whole bucket is drained: the loop that walks the iterator ends only when the
+			// iterator is exhausted. A bucket is looked at in the one block of its height, so
+			// entries left behind by a break, an early return or a callback that asks to stop
+			// are never processed.
+			{
+				early, stopProto := "", false
+				found := shapeOK
+				if shapeOK {
+					early, stopProto = cx.loopEarlyExit(loopFr.Fn, lh)
+					if consumer != loopFr && early == "" {
+						e2, sp2 := cx.loopEarlyExit(consumer.Fn, ch)
+						early, stopProto = e2, stopProto || sp2
+					}
+				}
+				if stopProto {
+					for _, cf := range bodies {
+						if at := mayReturnNonFalse(cf.Fn, 0); at != nil {
+							early = cx.P.Pos(at.Pos()) + " (the per-entry callback can ask the iteration to stop)"
+						}
+					}
+				}
+				r.check(found && early == "", "drain-complete", key, pos, "the iteration over the "+q.what+" ends only when the iterator is exhausted", "the iteration over the "+q.what+" can end early ("+early+"): the remaining due entries are never looked at again and stay queued")
+			}
+		}
+	}
 }
